@@ -148,10 +148,11 @@ func correctResponse(secret string, c *wamp.Challenge) string {
 // ---- table authorizer (C10) ------------------------------------------------
 
 type authzStats struct {
-	mu    sync.Mutex
-	Calls int
-	Meta  int // calls for the meta session (must stay 0)
-	Log   []string
+	mu       sync.Mutex
+	Calls    int
+	Meta     int            // calls for the meta session (must stay 0)
+	ByAuthID map[string]int // consultations per authid
+	Log      []string
 }
 
 type tableAuthorizer struct {
@@ -209,8 +210,12 @@ func (a *tableAuthorizer) Authorize(sess *wamp.Session, m wamp.Message) (bool, e
 	if sess.ID == 1 {
 		a.stats.Meta++
 	}
-	a.stats.mu.Unlock()
 	authid, _ := wamp.AsString(sess.Details["authid"])
+	if a.stats.ByAuthID == nil {
+		a.stats.ByAuthID = map[string]int{}
+	}
+	a.stats.ByAuthID[authid]++
+	a.stats.mu.Unlock()
 	r := a.cfg.decide(strings.ToUpper(m.MessageType().String()), msgURI(m), authid)
 	if r == nil {
 		return true, nil
